@@ -1215,5 +1215,180 @@ theorem foldl_eq_of_mem_iff (f : β → γ → β) (S : γ → Prop)
 
 end FoldSet
 
+/-! ### `aggRow`: steps on different rows commute, a repeated step is absorbed -/
+
+section AggRow
+variable {α : Type}
+
+theorem find?_setB (t : Table α) (g : Gr) (b : Bounds α) (g' : Gr) :
+    Table.find? (t.setB g b) g' =
+      (Table.find? t g').map fun r => if r.g == g then { r with b := b } else r := by
+  unfold Table.setB
+  exact find?_map_keep _ (by intro r; split <;> rfl) g' t
+
+theorem find?_setB_ne (t : Table α) {g g' : Gr} (h : g' ≠ g) (b : Bounds α) :
+    Table.find? (t.setB g b) g' = Table.find? t g' := by
+  rw [find?_setB]
+  cases h' : Table.find? t g' with
+  | none => rfl
+  | some r =>
+    have hk := find?_key h'
+    have : ¬ r.g = g := by rw [hk]; exact h
+    simp [this]
+
+theorem find?_setB_self (t : Table α) (g : Gr) (b : Bounds α) :
+    Table.find? (t.setB g b) g = (Table.find? t g).map fun r => { r with b := b } := by
+  rw [find?_setB]
+  cases h' : Table.find? t g with
+  | none => rfl
+  | some r =>
+    have hk := find?_key h'
+    simp [hk]
+
+theorem setB_setB (t : Table α) (g : Gr) (b b' : Bounds α) :
+    (t.setB g b).setB g b' = t.setB g b' := by
+  simp only [Table.setB, List.map_map]
+  apply List.map_congr_left
+  intro r _
+  simp only [Function.comp]
+  by_cases hr : r.g = g
+  · simp [hr]
+  · simp [hr]
+
+variable [Field α] [LinearOrder α]
+
+theorem aggRow_some {t : Table α} {g : Gr} {r : Row α} (h : Table.find? t g = some r)
+    (sel : BoundSel) (new : Bounds α) :
+    aggRow t g sel new = (t.setB g (aggregate sel r.b new).1, (aggregate sel r.b new).2) := by
+  unfold aggRow
+  rw [h]
+
+theorem aggRow_none {t : Table α} {g : Gr} (h : Table.find? t g = none)
+    (sel : BoundSel) (new : Bounds α) : aggRow t g sel new = (t, 0) := by
+  unfold aggRow
+  rw [h]
+
+theorem find?_aggRow_ne (t : Table α) {g g' : Gr} (h : g' ≠ g) (sel : BoundSel) (new : Bounds α) :
+    Table.find? (aggRow t g sel new).1 g' = Table.find? t g' := by
+  cases hx : Table.find? t g with
+  | none => rw [aggRow_none hx]
+  | some r => rw [aggRow_some hx]; exact find?_setB_ne t h _
+
+theorem aggRow_comm (t : Table α) {g₁ g₂ : Gr} (h : g₁ ≠ g₂) (sel : BoundSel) (p₁ p₂ : Bounds α) :
+    (aggRow (aggRow t g₁ sel p₁).1 g₂ sel p₂).1 = (aggRow (aggRow t g₂ sel p₂).1 g₁ sel p₁).1 ∧
+      (aggRow (aggRow t g₁ sel p₁).1 g₂ sel p₂).2 = (aggRow t g₂ sel p₂).2 ∧
+      (aggRow (aggRow t g₂ sel p₂).1 g₁ sel p₁).2 = (aggRow t g₁ sel p₁).2 := by
+  have e2 := find?_aggRow_ne t (Ne.symm h) sel p₁
+  have e1 := find?_aggRow_ne t h sel p₂
+  cases h1 : Table.find? t g₁ with
+  | none =>
+    cases h2 : Table.find? t g₂ with
+    | none =>
+      rw [h2] at e2; rw [h1] at e1
+      rw [aggRow_none e2, aggRow_none e1, aggRow_none h1, aggRow_none h2]
+      exact ⟨rfl, rfl, rfl⟩
+    | some r2 =>
+      rw [h2] at e2; rw [h1] at e1
+      rw [aggRow_some e2, aggRow_none e1, aggRow_none h1, aggRow_some h2]
+      exact ⟨rfl, rfl, rfl⟩
+  | some r1 =>
+    cases h2 : Table.find? t g₂ with
+    | none =>
+      rw [h2] at e2; rw [h1] at e1
+      rw [aggRow_none e2, aggRow_some e1, aggRow_some h1, aggRow_none h2]
+      exact ⟨rfl, rfl, rfl⟩
+    | some r2 =>
+      rw [h2] at e2; rw [h1] at e1
+      rw [aggRow_some e2, aggRow_some e1, aggRow_some h1, aggRow_some h2]
+      exact ⟨setB_comm t h _ _, rfl, rfl⟩
+
+/-- `aggRow` is a function of the denoted map -/
+theorem aggRow_congr {t t' : Table α} (h : TEq t t') (g : Gr) (sel : BoundSel) (p : Bounds α) :
+    TEq (aggRow t g sel p).1 (aggRow t' g sel p).1 ∧ (aggRow t g sel p).2 = (aggRow t' g sel p).2 := by
+  have hg := h g
+  unfold Table.denote at hg
+  cases hx : Table.find? t g with
+  | none =>
+    cases hx' : Table.find? t' g with
+    | none => rw [aggRow_none hx, aggRow_none hx']; exact ⟨h, rfl⟩
+    | some r' => rw [hx, hx'] at hg; cases hg
+  | some r =>
+    cases hx' : Table.find? t' g with
+    | none => rw [hx, hx'] at hg; cases hg
+    | some r' =>
+      rw [hx, hx'] at hg
+      simp only [Option.map_some, Option.some.injEq, Prod.mk.injEq] at hg
+      rw [aggRow_some hx, aggRow_some hx', hg.2]
+      exact ⟨h.setB _ _, rfl⟩
+
+/-- the step of the fold in `fUpConn` (and `fUpNot`) -/
+def stepA (acc : Table α × α) (it : Gr × Bounds α) : Table α × α :=
+  ((aggRow acc.1 it.1 .both it.2).1, acc.2 + (aggRow acc.1 it.1 .both it.2).2)
+
+theorem stepA_comm {x y : Gr × Bounds α} (h : x.1 ≠ y.1) (z : Table α × α) :
+    stepA (stepA z x) y = stepA (stepA z y) x := by
+  obtain ⟨e1, e2, e3⟩ := aggRow_comm z.1 h .both x.2 y.2
+  simp only [stepA]
+  rw [e1, e2, e3, add_right_comm]
+
+theorem foldl_stepA_congr :
+    ∀ (l : List (Gr × Bounds α)) {z z' : Table α × α}, TEq z.1 z'.1 → z.2 = z'.2 →
+      TEq (l.foldl stepA z).1 (l.foldl stepA z').1 ∧ (l.foldl stepA z).2 = (l.foldl stepA z').2
+  | [], _, _, h1, h2 => ⟨h1, h2⟩
+  | x :: l, z, z', h1, h2 => by
+    rw [List.foldl_cons, List.foldl_cons]
+    obtain ⟨e1, e2⟩ := aggRow_congr h1 x.1 .both x.2
+    exact foldl_stepA_congr l (z := stepA z x) (z' := stepA z' x) e1 (by simp only [stepA, e2, h2])
+
+variable [IsStrictOrderedRing α]
+
+theorem clamp01_monotone : Monotone (clamp01 : α → α) := by
+  intro x y h
+  exact min_le_min le_rfl (max_le_max le_rfl h)
+
+theorem clamp01_clamp01 (x : α) : clamp01 (clamp01 x) = clamp01 x := by
+  unfold clamp01
+  have h0 : (0 : α) ≤ min 1 (max 0 x) := le_min zero_le_one (le_max_left _ _)
+  rw [max_eq_right h0]
+  exact min_eq_right (min_le_left _ _)
+
+theorem aggregate_idem (prev new : Bounds α) :
+    aggregate .both (aggregate .both prev new).1 new = ((aggregate .both prev new).1, 0) := by
+  have hlo : clamp01 (max (clamp01 (max prev.lo new.lo)) new.lo) = clamp01 (max prev.lo new.lo) := by
+    rw [clamp01_monotone.map_max, clamp01_clamp01]
+    exact max_eq_left (clamp01_monotone (le_max_right _ _))
+  have hhi : clamp01 (min (clamp01 (min prev.hi new.hi)) new.hi) = clamp01 (min prev.hi new.hi) := by
+    rw [clamp01_monotone.map_min, clamp01_clamp01]
+    exact min_eq_left (clamp01_monotone (min_le_right _ _))
+  simp [aggregate, hlo, hhi]
+
+theorem aggRow_idem (t : Table α) (g : Gr) (p : Bounds α) :
+    aggRow (aggRow t g .both p).1 g .both p = ((aggRow t g .both p).1, 0) := by
+  cases hx : Table.find? t g with
+  | none => rw [aggRow_none hx, aggRow_none hx]
+  | some r =>
+    rw [aggRow_some hx]
+    have hx' : Table.find? (t.setB g (aggregate .both r.b p).1) g =
+        some { r with b := (aggregate .both r.b p).1 } := by
+      rw [find?_setB_self, hx]; rfl
+    rw [aggRow_some hx']
+    simp only [aggregate_idem, setB_setB]
+
+theorem stepA_idem (x : Gr × Bounds α) (z : Table α × α) : stepA (stepA z x) x = stepA z x := by
+  simp only [stepA, aggRow_idem, add_zero]
+
+/-- the aggregation fold over a list of proposals in which a grounding always carries the same
+proposal depends only on the SET of proposals -/
+theorem foldl_stepA_set {l l' : List (Gr × Bounds α)}
+    (hfun : ∀ x ∈ l, ∀ y ∈ l, x.1 = y.1 → x = y) (hset : ∀ y, y ∈ l ↔ y ∈ l')
+    (z : Table α × α) : l.foldl stepA z = l'.foldl stepA z := by
+  refine foldl_eq_of_mem_iff stepA (· ∈ l) ?_ (fun x _ z => stepA_idem x z) (fun _ h => h) hset z
+  intro x y hx hy z
+  by_cases hxy : x.1 = y.1
+  · rw [hfun x hx y hy hxy]
+  · exact stepA_comm hxy z
+
+end AggRow
+
 end Join
 end LNN
